@@ -372,3 +372,4 @@ package index
 //@ lemma Bytes.sub_view: forall a (Array Int Int), o int, l int, lo int, hi int :: 0 <= lo && lo <= hi && hi <= l ==> bsub(mkbytes(a, o, l), lo, hi) == mkbytes(a, o + lo, hi - lo) property C08
 //@ lemma Bytes.prefix_take: forall p Bytes, x Bytes, n int :: isprefix(p, x) && len(p) <= n && n <= len(x) ==> isprefix(p, x[:n]) property C08
 //@ lemma Bytes.prefix_lcp: forall p Bytes, x Bytes, y Bytes :: isprefix(p, x) && isprefix(p, y) ==> len(p) <= lcp(x, y) property C08
+//@ lemma Bytes.sub_whole: forall b Bytes :: bsub(b, 0, len(b)) == b property C08
